@@ -3,6 +3,7 @@ CONSTANTS
   Focus = {"n"}
   NDcf = 2
   MaxArgv = 2
+  Repeat = FALSE
   Emit = TRUE
 INVARIANT DocumentedOrder
 INVARIANT StagesAgree
